@@ -173,4 +173,110 @@ theorem recv_data_ok (p : Party) (ok ign : Bool) (skid rkid : Nat) (g : Option D
           exact ⟨q, o, h, hk.trans hkq⟩
         · exact ⟨_, _, rfl, hk⟩
 
+/-! ### every `Receive` keeps the slot invariant -/
+
+theorem slotInv_reset {p : Party} (h : SlotInv p.slots) : SlotInv p.reset.slots :=
+  slotInv_map _ (fun _ => Or.inr rfl) h
+
+theorem genKey_slots {q r : Party} {m : Msg} (h : q.genKey = (r, m)) : r.slots = q.slots := by
+  simp only [Party.genKey, Party.newId, Prod.mk.injEq] at h
+  rw [← h.1]
+
+theorem genCommit_slots {q r : Party} {m : Msg} {dg : Bytes} (h : q.genCommit dg = (r, m)) :
+    r.slots = q.slots := by
+  simp only [Party.genCommit, Party.newId, Prod.mk.injEq] at h
+  rw [← h.1]
+
+theorem slotInv_rotate {p : Party} (h : SlotInv p.slots) : SlotInv p.rotate.slots := (keeps_rotate p).slots h
+
+theorem genReveal_slots {q r : Party} {m : Msg} (h : q.genReveal = .ok (r, m)) (hs : SlotInv q.slots) :
+    SlotInv r.slots := by
+  unfold Party.genReveal at h
+  split at h
+  · injection h with h
+    simp only [Prod.mk.injEq] at h
+    rw [← h.1]
+    exact slotInv_rotate (p := { q with ssid := _, myKeyId := _, myCur := _ }) hs
+  · cases h
+
+theorem genSig_slots {q r : Party} {m : Msg} (h : q.genSig = (r, m)) (hs : SlotInv q.slots) :
+    SlotInv r.slots := by
+  simp only [Party.genSig, Prod.mk.injEq] at h
+  rw [← h.1]
+  exact slotInv_rotate (p := { q with myKeyId := _, myCur := _ }) hs
+
+theorem gyMatch_slots {p r : Party} {y : Id} {b : Bool}
+    (h : (match p.gy with
+          | some g => (p, decide (g = y))
+          | none => ({ p with gy := some y }, false)) = (r, b)) : r.slots = p.slots := by
+  cases hg : p.gy <;> simp only [hg, Prod.mk.injEq] at h <;> rw [← h.1]
+
+/-- **every `Receive` keeps the slot invariant**, whatever arrives -/
+theorem slotInv_recv (p : Party) (i : In) (hs : SlotInv p.slots) :
+    ∀ p' o, p.recv i = .ok (p', o) → SlotInv p'.slots := by
+  fun_cases Party.recv p i
+  all_goals (intro p' o hr)
+  all_goals first
+    | (simp only [R.ok.injEq, Prod.mk.injEq] at hr; obtain ⟨rfl, _⟩ := hr; exact hs)
+    | (cases hr; done)
+    | skip
+  case case3 =>
+    rename_i dg p1 q m hx
+    simp only [R.ok.injEq, Prod.mk.injEq] at hr; obtain ⟨rfl, _⟩ := hr
+    rw [genCommit_slots hx]; exact slotInv_reset (p := { p with auth := .awKey }) hs
+  case case5 =>
+    rename_i p1 q m hx
+    simp only [R.ok.injEq, Prod.mk.injEq] at hr; obtain ⟨rfl, _⟩ := hr
+    rw [genKey_slots hx]; exact slotInv_reset (p := (p1.procCommit _ _)) hs
+  case case8 =>
+    rename_i p1 q m hx
+    simp only [R.ok.injEq, Prod.mk.injEq] at hr; obtain ⟨rfl, _⟩ := hr
+    rw [genKey_slots hx]; exact slotInv_reset (p := (p1.procCommit _ _)) hs
+  case case13 =>
+    rename_i q m hx
+    simp only [R.ok.injEq, Prod.mk.injEq] at hr; obtain ⟨rfl, _⟩ := hr
+    show SlotInv q.slots
+    rw [genKey_slots hx]; exact slotInv_reset (p := (p.procCommit _ _)) hs
+  case case15 =>
+    rename_i q hx
+    simp only [R.ok.injEq, Prod.mk.injEq] at hr; obtain ⟨rfl, _⟩ := hr
+    rw [gyMatch_slots hx]; exact hs
+  case case17 =>
+    rename_i p1 same hx _ q m hg
+    simp only [R.ok.injEq, Prod.mk.injEq] at hr; obtain ⟨rfl, _⟩ := hr
+    show SlotInv q.slots
+    exact genReveal_slots hg (by rw [gyMatch_slots hx]; exact hs)
+  case case20 =>
+    rename_i q m _ hx
+    simp only [R.ok.injEq, Prod.mk.injEq] at hr; obtain ⟨rfl, _⟩ := hr
+    rw [gyMatch_slots hx]; exact hs
+  case case21 =>
+    rename_i q same hx _
+    simp only [R.ok.injEq, Prod.mk.injEq] at hr; obtain ⟨rfl, _⟩ := hr
+    rw [gyMatch_slots hx]; exact hs
+  case case28 =>
+    rename_i q m hx
+    simp only [R.ok.injEq, Prod.mk.injEq] at hr; obtain ⟨rfl, _⟩ := hr
+    show SlotInv q.slots
+    exact genSig_slots hx hs
+  case case37 =>
+    rename_i q hx
+    simp only [R.ok.injEq, Prod.mk.injEq] at hr; obtain ⟨rfl, _⟩ := hr
+    have := (keeps_calc p _ _).slots hs; rw [hx] at this; exact this
+  case case38 =>
+    rename_i q i hx
+    simp only [R.ok.injEq, Prod.mk.injEq] at hr; obtain ⟨rfl, _⟩ := hr
+    have := (keeps_calc p _ _).slots hs; rw [hx] at this; exact this
+  case case39 =>
+    rename_i q i hx s d _
+    have hq := (keeps_calc p _ _).slots hs; rw [hx] at hq
+    obtain ⟨q', o', h, hk⟩ := acceptData_ok q i d hq
+    rw [h] at hr
+    simp only [R.ok.injEq, Prod.mk.injEq] at hr; obtain ⟨rfl, _⟩ := hr
+    exact hk.slots hq
+  case case40 =>
+    rename_i q i hx s d _
+    simp only [R.ok.injEq, Prod.mk.injEq] at hr; obtain ⟨rfl, _⟩ := hr
+    have := (keeps_calc p _ _).slots hs; rw [hx] at this; exact this
+
 end XC.C47
